@@ -91,6 +91,7 @@ Inductive gev :=
 | EReturn (stat_called attempted : bool)   (* _gids_map_update returns *)
 | EUpdated                      (* gids_update returns *)
 | EOpen                         (* _gids_map_create opens the databases (setgrent) *)
+| EClose                        (* ... and closes them again (endgrent), on its success and on its error path *)
 | EAns (u g : N) (b : bool)
 | EMark (c : nat)               (* scheduler: refresh parked at hook point c (0 T, 1 G, 2 E) *)
 | EStuck.
@@ -137,6 +138,7 @@ Definition rearm (g : gstate) (act : list ptimer) (last clock : Z) : Z * list pt
 Definition do_commit (v : variant) (s : gt) (tm : ptimer) (p : pending) (attempted : bool)
            (wscan : world) (stat_called : bool) : gt * list gev :=
   let ret := [EReturn stat_called attempted] in
+  let cls := if attempted then [EClose] else [] in
   let aborted :=
     match v with
     | VAbortOnFail => attempted && match p_map p with None => true | Some _ => false end
@@ -144,7 +146,7 @@ Definition do_commit (v : variant) (s : gt) (tm : ptimer) (p : pending) (attempt
     end in
   if aborted then
     (mkGT (x_g s) (x_tid s) (x_active s) (x_batch s) PIdle (x_last s) (x_clock s) (x_w s)
-          (x_hi s) (x_owed s) (x_extra s) (x_loaded s), ret)
+          (x_hi s) (x_owed s) (x_extra s) (x_loaded s), cls ++ ret)
   else
     let g' := refresh_commit (x_g s) p in
     let '(act1, ev1) :=
@@ -158,7 +160,7 @@ Definition do_commit (v : variant) (s : gt) (tm : ptimer) (p : pending) (attempt
     let '(tid, act2, last, ev2) := rearm g' act1 (x_last s) (x_clock s) in
     (mkGT g' tid act2 (x_batch s) PIdle last (x_clock s) (x_w s) (x_hi s) (x_owed s) (x_extra s)
           (match p_map p with Some _ => Some wscan | None => x_loaded s end),
-     ev1 ++ ev2 ++ ret).
+     cls ++ ev1 ++ ev2 ++ ret).
 
 (* was stat() called: the snapshot flag, remembered through the local do_group_stat: the local
    copy is > 0 or -2 exactly when the snapshot was > 0 *)
@@ -232,6 +234,15 @@ Definition gt_init (interval dostat : Z) (w : world) : gt := fst (gt_create inte
 (* gids_destroy: if (gids->timer > 0) timer_cancel (gids->timer) *)
 Definition gt_destroy (s : gt) : option (Z * bool) :=
   if 0 <? x_tid s then Some (x_tid s, snd (t_cancel (x_active s) (x_tid s))) else None.
+
+(* the group database stream (glibc keeps ONE: setgrent opens it only when it is not open, otherwise it rewinds the file
+   it has; endgrent closes it): open or closed after a stretch of events *)
+Definition stream_after (b : bool) (e : list gev) : bool :=
+  fold_left (fun b ev => match ev with EOpen => true | EClose => false | _ => b end) e b.
+
+(* ... and by the state of the callback: open exactly between the scan and the second critical section *)
+Definition stream_open (s : gt) : bool :=
+  match x_phase s with PBuilt _ _ att _ => att | _ => false end.
 
 (* the databases after a stretch of labels *)
 Fixpoint world_after (w : world) (tr : list glabel) : world :=
